@@ -117,7 +117,10 @@ Quiesced ==
             \cup (IF alive /\ Cur.reached /\ undeliveredR # {} THEN Flag("C02", "reliable-undelivered-at-quiescence") ELSE {})
             \* ... seen from C04: a packet of several fragments that never arrives although the connection has come to rest was
             \* not reassembled ("every packet ... arrives")
-            \cup (IF alive /\ Cur.reached /\ \E u \in undeliveredR : sub[u].len > 1448 THEN Flag("C04", "multi-fragment-reliable-packet-never-arrived") ELSE {})
+            \* (not in runs with forged copies of fragments: a forged fragment that arrives first decides the packet's header, and
+            \* the genuine ones are then rightly refused)
+            \cup (IF alive /\ Cur.reached /\ ("honest" \notin DOMAIN Cur \/ Cur.honest) /\ \E u \in undeliveredR : sub[u].len > 1448
+                  THEN Flag("C04", "multi-fragment-reliable-packet-never-arrived") ELSE {})
             \cup (IF alive /\ Cur.reached /\ (Cur.pending \/ Cur.bufsize # 0) THEN Flag("C02", "pending-or-buffer-nonzero-at-quiescence") ELSE {})
             \cup (IF alive /\ ideal /\ Cur.reached /\ missingIdeal # {} THEN Flag("C05", "packet-missing-on-ideal-network") ELSE {})
             \* ... nor may the connection fail to come to rest within the horizon while such a packet is still missing
